@@ -37,6 +37,8 @@ type Encoder struct {
 	curBlk      *ssa.BasicBlock
 	anc         map[*ssa.BasicBlock]map[*ssa.BasicBlock]bool
 	blockCases  map[*ssa.BasicBlock][]string // incoming edge conditions of join blocks (for the case-split fallback)
+	defs        map[string]string            // defined name -> term (for store-to-load forwarding)
+	parts       map[string][]string          // constructor term -> field terms
 }
 
 type encErr struct{ msg string }
@@ -99,7 +101,71 @@ func (e *Encoder) define(base, sort, t string) string {
 	}
 	s := e.fresh(base)
 	e.emit(fmt.Sprintf("(define-fun %s () %s %s)", s, sort, t))
+	if e.defs == nil {
+		e.defs = map[string]string{}
+	}
+	e.defs[s] = t
 	return s
+}
+
+// selFwd is (select a i) with store-to-load forwarding through named definitions: reading back the cell that the
+// latest store wrote gives the stored term itself (keeps constants syntactic, which lets switch arms be pruned).
+func (e *Encoder) selFwd(a, i string) string {
+	cur := a
+	for k := 0; k < 64; k++ {
+		d, ok := e.defs[cur]
+		if !ok {
+			d = cur
+		}
+		if !strings.HasPrefix(d, "(store ") {
+			break
+		}
+		parts := splitSexpArgs(d)
+		if len(parts) != 4 {
+			break
+		}
+		if parts[2] == i {
+			return parts[3]
+		}
+		// a store at a syntactically different literal index can be skipped; otherwise stop
+		_, l1 := isIntLit(parts[2])
+		_, l2 := isIntLit(i)
+		if !(l1 && l2) {
+			break
+		}
+		cur = parts[1]
+	}
+	return sel(a, i)
+}
+
+// splitSexpArgs splits "(f a b c)" into ["f","a","b","c"] at the top level.
+func splitSexpArgs(s string) []string {
+	if len(s) < 2 || s[0] != '(' || s[len(s)-1] != ')' {
+		return nil
+	}
+	s = s[1 : len(s)-1]
+	var out []string
+	depth, start, inBar := 0, 0, false
+	for i := 0; i < len(s); i++ {
+		switch {
+		case s[i] == '|':
+			inBar = !inBar
+		case inBar:
+		case s[i] == '(':
+			depth++
+		case s[i] == ')':
+			depth--
+		case s[i] == ' ' && depth == 0:
+			if i > start {
+				out = append(out, s[start:i])
+			}
+			start = i + 1
+		}
+	}
+	if start < len(s) {
+		out = append(out, s[start:])
+	}
+	return out
 }
 
 func (e *Encoder) assume(pc, fact string) {
@@ -204,7 +270,7 @@ func (e *Encoder) rootSort(l *Loc) string { return e.sorts.sortOf(l.Root) }
 func (e *Encoder) readRoot(st *State, l *Loc) string {
 	switch len(l.Idx) {
 	case 1:
-		return sel(e.comp(st, l.Comp, arrSort(e.rootSort(l))), l.Idx[0])
+		return e.selFwd(e.comp(st, l.Comp, arrSort(e.rootSort(l))), l.Idx[0])
 	case 2:
 		return sel(sel(e.comp(st, l.Comp, arr2Sort(e.rootSort(l))), l.Idx[0]), l.Idx[1])
 	}
@@ -264,7 +330,7 @@ func (e *Encoder) storeLoc(st *State, l *Loc, v *Value) {
 		ss := e.sorts.structSortOf(sT, s)
 		for i := 0; i < s.NumFields(); i++ {
 			f := s.Field(i)
-			e.storeLoc(st, e.fieldLoc(l, f), term(app(ss.Fields[i].Acc, v.T), ss.Fields[i].Sort, f.Type()))
+			e.storeLoc(st, e.fieldLoc(l, f), term(e.fieldOf(ss, i, v.T), ss.Fields[i].Sort, f.Type()))
 		}
 		return
 	}
